@@ -155,9 +155,11 @@ end Drv.C13N
 
 /-! ### file backend
 
-    fileT <file> <timeouts> <n> <fuel> <o0> <trace> <fin>
+    fileT <file> <timeouts> <scripts> <n> <fuel> <o0> <trace> <fin>
         file = A | E | <counter>:<exp>     timeouts = per request 0|1 joined by `.` (lock_timeout configured)
-        trace tokens: <i> | S | K<d> | X<i> (the lock timeout of request i expires)
+        scripts = `;`-separated handler scripts over m (rmw) d (delete) g (regenerate), `-` = empty
+        trace tokens: <i> | S | K<d> | X<i> (the lock timeout of request i expires) | F<k> (a fault is
+        armed for the sweep: 0 open/load, 1 expiry comparison, 2 unlink)
       -> `ok …` | `fail <turn> <tok> <observations the model could show instead>` -/
 namespace Drv.C13F
 open Drv.C13P CpModel.SessionFile CpModel.SessionAdmit
@@ -172,10 +174,17 @@ def parseTok (s : String) : Option Actor :=
   if s == "S" || s == "S0" then some .sweep
   else if s.startsWith "K" then (s.drop 1).toString.toNat?.map .tick
   else if s.startsWith "X" then (s.drop 1).toString.toNat?.map .expire
+  else if s.startsWith "F" then (s.drop 1).toString.toNat?.map .fault
   else s.toNat?.map .req
 
+def parseScript (s : String) : Option (List FOp) :=
+  if s == "-" then some [] else
+  s.toList.mapM fun c =>
+    if c == 'm' then some FOp.rmw else if c == 'd' then some FOp.delete else if c == 'g' then some FOp.regen
+    else none
+
 def showTok : Actor → String
-  | .req i => toString i | .sweep => "S" | .tick d => s!"K{d}" | .expire i => s!"X{i}"
+  | .req i => toString i | .sweep => "S" | .tick d => s!"K{d}" | .expire i => s!"X{i}" | .fault k => s!"F{k}"
 
 def parseTurn (s : String) : Option (Turn Actor (List Nat) × Option (Nat × Nat)) :=
   match s.splitOn "@" with
@@ -183,7 +192,7 @@ def parseTurn (s : String) : Option (Turn Actor (List Nat) × Option (Nat × Nat
     let act ← parseTok a
     let o ← parseNats o
     let l ← parseLab l
-    pure ((match act with | .tick _ | .expire _ => .exact act o | _ => .free act o), l)
+    pure ((match act with | .tick _ | .expire _ | .fault _ => .exact act o | _ => .free act o), l)
   | _ => none
 
 def turnActor : Turn Actor (List Nat) → Actor
@@ -199,16 +208,17 @@ def reachableObs (n fuel : Nat) (S : List St) (a : Actor) : List (List Nat) :=
 
 def stepLine (args : List String) : String :=
   match args with
-  | [f, tos, n, fuel, o0, trace, fi] =>
-    let parsed : Option (FileC × List Nat × Nat × Nat × List Nat ×
+  | [f, tos, scripts, n, fuel, o0, trace, fi] =>
+    let parsed : Option (FileC × List Nat × List (List FOp) × Nat × Nat × List Nat ×
         List (Turn Actor (List Nat) × Option (Nat × Nat)) × List Nat) := do
-      pure (← parseFile f, ← parseNats tos, ← n.toNat?, ← fuel.toNat?, ← parseNats o0,
+      pure (← parseFile f, ← parseNats tos, ← (scripts.splitOn ";").mapM parseScript, ← n.toNat?, ← fuel.toNat?,
+            ← parseNats o0,
             ← (if trace == "-" then some [] else (trace.splitOn "|").mapM parseTurn), ← parseNats fi)
     match parsed with
     | none => "bad-op"
-    | some (f, tos, n, fuel, o0, trl, fi) =>
+    | some (f, tos, progs, n, fuel, o0, trl, fi) =>
       let tr := trl.map (·.1)
-      let s0 := init f (fun i => tos.getD i 0 != 0)
+      let s0 := init f (fun i => tos.getD i 0 != 0) progs
       if obs n s0 ≠ o0 then s!"fail init - {showNats (obs n s0)}" else
       if admitsT step enabled (obs n) (fin n) lab isLocal fuel s0 o0 trl fi then "ok 1 tight" else
       match failAt step enabled (obs n) (pruneBy (key n)) fuel [s0] o0 [] tr 0 with
